@@ -180,6 +180,47 @@ func loadEngine(repo string, patterns []string, mirrorDir string, externDir stri
 	return e, nil
 }
 
+// globalWriter returns the name of a non-init function of the package that stores to g ("" if none).
+func (e *Engine) globalWriter(sp *ssa.Package, g *ssa.Global) string {
+	var visit func(fn *ssa.Function) string
+	visit = func(fn *ssa.Function) string {
+		if fn == nil || fn.Name() == "init" || strings.HasPrefix(fn.Name(), "init#") {
+			return ""
+		}
+		for _, b := range fn.Blocks {
+			for _, in := range b.Instrs {
+				if s, ok := in.(*ssa.Store); ok && s.Addr == ssa.Value(g) {
+					return fn.Name()
+				}
+			}
+		}
+		for _, a := range fn.AnonFuncs {
+			if w := visit(a); w != "" {
+				return w
+			}
+		}
+		return ""
+	}
+	for _, m := range sp.Members {
+		switch x := m.(type) {
+		case *ssa.Function:
+			if w := visit(x); w != "" {
+				return w
+			}
+		case *ssa.Type:
+			for _, t := range []types.Type{x.Type(), types.NewPointer(x.Type())} {
+				ms := e.prog.MethodSets.MethodSet(t)
+				for i := 0; i < ms.Len(); i++ {
+					if w := visit(e.prog.MethodValue(ms.At(i))); w != "" {
+						return w
+					}
+				}
+			}
+		}
+	}
+	return ""
+}
+
 // findFunc resolves a contract key to the ssa function.
 func (e *Engine) findFunc(pkgPath, key string) *ssa.Function {
 	sp := e.pkgs[pkgPath]
@@ -390,6 +431,66 @@ func (e *Engine) verifyFunc(fn *ssa.Function, c *Contract) (rep *FuncReport) {
 	for _, a := range c.Assumes {
 		ctx.note("assumed at the API boundary of %s: %s", c.Key, a.Text)
 	}
+	if fn.Synthetic == "package initializer" && fn.Pkg != nil {
+		// the initialiser body runs once: the guard is false on entry
+		if g, ok := fn.Pkg.Members["init$guard"].(*ssa.Global); ok {
+			gv := st.loadQuiet(st.globalPtr(g).P, nil)
+			st.assume(Not(gv.L[0]))
+		}
+	}
+	// package-level variables declared non-nil (initialised at package init, never reassigned: checked statically)
+	if sp := fn.Pkg; sp != nil {
+		for _, name := range e.specs.NonNil[sp.Pkg.Path()] {
+			g, ok := sp.Members[name].(*ssa.Global)
+			if !ok {
+				st.bindFail(fmt.Sprintf("%sbind[nonnil %s]", prefix, name), fmt.Errorf("no package-level variable %s", name))
+				continue
+			}
+			if w := e.globalWriter(sp, g); w != "" {
+				st.bindFail(fmt.Sprintf("%snonnil[%s]", prefix, name), fmt.Errorf("%s is declared nonnil but is assigned in %s", name, w))
+				continue
+			}
+			gv := st.loadQuiet(st.globalPtr(g).P, nil)
+			st.assume(Ne(gv.L[0], I(0)))
+			ctx.note("package-level variable %s.%s is non-nil (initialised at package init; no other assignment exists in the package — checked)", sp.Pkg.Name(), name)
+		}
+	}
+	// invariants over package-level variables: proved on the package initialiser, assumed elsewhere
+	// (sound because no other function of the package assigns the variables — checked statically)
+	var ginvPost []GInv
+	if sp := fn.Pkg; sp != nil {
+		for gi, inv := range e.specs.GInv[sp.Pkg.Path()] {
+			if fn.Synthetic == "package initializer" {
+				ginvPost = append(ginvPost, inv)
+				continue
+			}
+			bad := false
+			for _, name := range inv.Vars {
+				g, ok := sp.Members[name].(*ssa.Global)
+				if !ok {
+					st.bindFail(fmt.Sprintf("%sbind[ginv %d]", prefix, gi+1), fmt.Errorf("no package-level variable %s", name))
+					bad = true
+					continue
+				}
+				if w := e.globalWriter(sp, g); w != "" {
+					st.bindFail(fmt.Sprintf("%sginv[%s]", prefix, name), fmt.Errorf("%s is covered by a package invariant but is assigned in %s", name, w))
+					bad = true
+				}
+			}
+			if bad {
+				continue
+			}
+			env := st.specEnv("ginv")
+			env.old = nil
+			t, err := st.evalClause(env, inv.Cl)
+			if err != nil {
+				st.bindFail(fmt.Sprintf("%sbind[ginv %d]", prefix, gi+1), err)
+				continue
+			}
+			st.assume(t)
+			ctx.note("package invariant (proved on the package initialiser; the variables have no other writer — checked): %s", inv.Cl.Text)
+		}
+	}
 	// interface refinement: assume the interface method's requires
 	ifaceCs := e.ifaceContractsFor(fn)
 	st.entry = st.clone()
@@ -410,7 +511,7 @@ func (e *Engine) verifyFunc(fn *ssa.Function, c *Contract) (rep *FuncReport) {
 				env.resNames = append(env.resNames, rs.At(i).Name())
 			}
 		}
-		for i, en := range c.Ensures {
+		for i, en := range append(append([]Clause(nil), c.Ensures...), c.EnsuresLocal...) {
 			t, err := s.evalClause(env, en)
 			name := fmt.Sprintf("%sensures#%d", prefix, i+1)
 			if err != nil {
@@ -418,6 +519,16 @@ func (e *Engine) verifyFunc(fn *ssa.Function, c *Contract) (rep *FuncReport) {
 				continue
 			}
 			s.obligeNoAssume(name, "ensures", s.posOf(s.lastReturn), t, en.Text)
+		}
+		for gi, inv := range ginvPost {
+			genv := s.specEnv("ginv")
+			t, err := s.evalClause(genv, inv.Cl)
+			name := fmt.Sprintf("%sginv#%d", prefix, gi+1)
+			if err != nil {
+				s.bindFail(name, err)
+				continue
+			}
+			s.obligeNoAssume(name, "ginv", "", t, "package invariant established by init: "+inv.Cl.Text)
 		}
 		for _, ic := range ifaceCs {
 			ienv := e.ifaceEnv(s, fn, ic, results)
